@@ -106,6 +106,7 @@ ClsOf(ev) ==
     [] ev.op = "posix_memalign" /\ ev.n < 0 -> "enomem"
     [] ev.op \in {"reallocarray", "reallocarray_null", "reallocarray_ovf"} /\ ev.n < 0 -> "overflow"
     [] ev.op \in CppAlloc /\ ev.n < 0 -> "enomem"       \* operator new with an unsatisfiable size
+    [] ev.op \in {"malloc", "calloc", "realloc_null", "aligned_alloc", "memalign", "valloc", "pvalloc"} /\ ev.n < 0 -> "toolarge"   \* beyond PTRDIFF_MAX (also after rounding up to a page / an alignment): NULL
     [] OTHER -> "ok"
 
 \* ---------------------------------------------------------------- operator new that cannot be satisfied (no new-handler installed)
